@@ -33,7 +33,7 @@ func vAssumeASCII(s string) {
 	}
 }
 
-// vIdentityCase: admin list of 0..maxAdmins names (1..nameLen bytes each, any bytes), one of the
+// vIdentityCase: admin list of 0..maxAdmins names (1..nameLen ASCII bytes each), one of the
 // first nHeaders ACL header names, and the request's identity: ACL header absent / present with
 // any value of 0..nameLen bytes (empty, an admin's name, a look-alike, anything else) / an
 // admin's name presented under a different header.
